@@ -136,6 +136,9 @@ func bounded(what string, f func() []fasta.Fasta) ([]fasta.Fasta, error) {
 func checkRoundtrip(c Case) error {
 	want := records(c)
 	text := fasta.Build(want)
+	if err := same("the records after Build (the writer must not change its argument)", want, records(c)); err != nil {
+		return err
+	}
 	// the text handed back must stay what it is when other records are written before it is read
 	snapshot := string(text)
 	_ = fasta.Build([]fasta.Fasta{{Name: "another record", Sequence: strings.Repeat("tgca", len(snapshot)/16)}})
